@@ -81,6 +81,7 @@ class DavSession:
         self.last_etag = {}    # (c, n) -> current etag string
         self.seen_etags = {}   # (c, n) -> [etag strings seen earlier]
         self.locked = set()
+        self.acked_deleted = set()   # (slot, name): the server acknowledged its deletion, nothing re-created it
         self.explicit = {}     # (slot, neutral property) -> value id set by an acknowledged instruction
         self.coll_etag = {}    # slot -> the collection's own getetag (string) as last observed
         self.seen_coll_etags = {}
@@ -139,6 +140,10 @@ class DavSession:
                 vals.append("*")
                 star = True
                 continue
+            if cls in ("empty", "blank"):
+                # the header is there and lists nothing (an empty / white-space value)
+                vals.append("" if cls == "empty" else "  ")
+                continue
             if cls == "cur":
                 e = cur or '"never-existed"'
             elif cls == "stale":
@@ -167,7 +172,8 @@ class DavSession:
                 raise ValueError(cls)
             vals.append(e)
             tags.append(self.E(e))
-        return ", ".join(vals), {"present": True, "star": star, "tags": sorted(set(tags))}
+        hv = ", ".join(vals) if any(v.strip() for v in vals) else "".join(vals)
+        return hv, {"present": True, "star": star, "tags": sorted(set(tags))}
 
     # -- recording ------------------------------------------------------------
     def _record(self, ev, resp, concrete):
@@ -176,6 +182,7 @@ class DavSession:
         ev["resp"] = {"cls": cls, "cond": cond, "etag": self.E(et) if et else 0,
                       "status": resp.status if resp is not None else 0}
         ev["lk"] = ev.get("c") in self.locked
+        self._note_ack(ev)
         ev["audit"] = self.audit(target=ev.get("c"))
         self.events.append(ev)
         self.concrete.append(concrete)
@@ -234,6 +241,27 @@ class DavSession:
         self._fault_fired = False
         return self.world.request(method, path, hdrs, body)
 
+    def _holders_gone(self, c, n, b):
+        """Every member the last audit shows with the UID of body b (other than n) is one whose
+        deletion the server has acknowledged: the UID is free by the server's own word."""
+        uid = self.battr.get(b, {}).get("uid") or ""
+        if not uid or not self.events:
+            return False
+        mem = self.events[-1]["audit"]["colls"].get(c, {}).get("members", {})
+        holders = [m for m, r in mem.items() if m != n and self.battr.get(r.get("b"), {}).get("uid") == uid]
+        return bool(holders) and all((c, m) in self.acked_deleted for m in holders)
+
+    def _note_ack(self, ev):
+        """Keep track of acknowledged deletions (and of what re-creates a name)."""
+        if ev["resp"]["cls"] != "ok":
+            return
+        if ev["op"] == "Delete":
+            self.acked_deleted.add((ev["c"], ev["n"]))
+        elif ev["op"] in ("Put", "Post"):
+            self.acked_deleted.discard((ev["c"], ev.get("n", "")))
+        elif ev["op"] in ("Mk", "DeleteColl"):
+            self.acked_deleted = {k for k in self.acked_deleted if k[0] != ev["c"]}
+
     def put(self, c, n, data, ct=None, im=None, inm=None, valid=None, re=False, fault=0, chunked=False,
             external=False, segmented=False):
         ct = ct or gamma.content_type_for(n)
@@ -252,6 +280,7 @@ class DavSession:
         self.world.segmented_next = bool(segmented)  # (aiohttp: the request arrives in several segments)
         resp = self._request("PUT", path, hdrs, data, fault, external=external)
         ev = {"op": "Put", "c": c, "n": n, "b": b, "im": imr, "inm": inmr, "re": bool(re),
+              "gone": self._holders_gone(c, n, b),
               "fault": fault if self._fault_fired else 0, "ext": bool(external),
               "fgate": getattr(self, "_fault_gate", "") if self._fault_fired else ""}
         return self._record(ev, resp, {"m": "PUT", "path": path, "headers": hdrs,
